@@ -187,6 +187,15 @@ type result struct {
 	sigs     []string
 }
 
+// stepTag keeps the signatures of the two black-box check steps apart: the
+// driver sums distinct counts.
+func stepTag() string {
+	if light() > 1 {
+		return "race-step/"
+	}
+	return "plain-step/"
+}
+
 func light() int {
 	if os.Getenv("VERIF_LIGHT") != "" {
 		return 6
@@ -650,7 +659,7 @@ func runFam(t *testing.T, r *vlib.Run, fam string, n int) {
 				us = append(us, s)
 			}
 			sort.Strings(us)
-			r.Nontrivial(fam + ":" + strings.Join(us, ","))
+			r.Nontrivial(stepTag() + fam + ":" + strings.Join(us, ","))
 			r.Count("distinct_edges_in_case", int64(len(us)))
 		}
 		if i < 2 {
